@@ -35,7 +35,7 @@ STATE_MEASURE = "(message type, encoding per hop, frame, scale, cov-frame class,
 PROBES = [
     "hop_compared", "kvn_xml_compared", "redump_compared", "config_default_used", "builtin_default_used", "creation_date_from_virtual_clock",
     "cov_in_local_frame", "cov_in_other_frame", "man_qsw", "man_tnw", "man_inertial", "man_continuous", "single_point_oem", "single_cov_oem", "multi_ephem_oem",
-    "omm_redumped", "tdm_two_paths", "user_defined_fields", "absent_name", "stored_example_message", "body_centred_frame", "reader_read_another_message_first", "dump_keyword_arguments",
+    "omm_redumped", "tdm_two_paths", "user_defined_fields", "absent_name", "stored_example_message", "body_centred_frame", "reader_read_another_message_first", "dump_keyword_arguments", "object_with_frame_history_written",
 ]
 REAL_VS_STUB = "real: beyond.io.ccsds writers and readers (lxml), StateVector/Orbit/Ephem/Cov/maneuvers/MeasureSet, Tle; stub: the file objects handed to dump()/load() (simulated disk), the datetime class read by Date.now (virtual wall clock); model: canonical description of the object compared at the written precision"
 ASSUMPTIONS = [
@@ -118,6 +118,9 @@ def gen_plan(rng, tier, i):
             user=rng.choice([None, None, {"FOO": "bar"}, {"MASS": "812.5", "NOTE": "free text here"}]),
             kep_flag=rng.choice([True, True, False]),
         )
+        if spec["cov"] == "same" and spec["frame"] not in BODY and rng.random() < 0.4:
+            # the object has a history before it is written: covariance moved to another frame, state moved, covariance moved again
+            spec["cov_history"] = [["cov", rng.choice(INERTIAL)], ["state", rng.choice(INERTIAL + ROTATING)], ["cov", rng.choice([spec["frame"], spec["frame"], rng.choice(INERTIAL)])]]
     elif kind == "omm":
         spec.update(tle=rng.choice(["iss", "molniya", "gps", "geo"]), cov=rng.choice([None, None, "same", "QSW", "TNW"]), cov_seed=rng.randrange(1 << 30), user=rng.choice([None, {"FOO": "bar"}]))
         spec.pop("scale")
@@ -231,6 +234,13 @@ def build(node, spec, ctx):
             sv.name = spec["name"]
             sv.cospar_id = spec["cospar_id"]
         attach_cov(node, sv, spec.get("cov"), spec["cov_seed"])
+        for what, fr in spec.get("cov_history", []):
+            if what == "cov":
+                sv.cov.frame = fr
+            else:
+                sv.frame = fr
+                sv.form = "cartesian"
+            ctx.probe("object_with_frame_history_written")
         man = node.mod("beyond.orbits.man")
         ms = []
         for m in spec.get("mans", []):
@@ -834,7 +844,7 @@ def simplify(plan):
         yield dict(plan, knobs=dict(kn, real_eop=False))
     if kn.get("decoy_scale"):
         yield dict(plan, knobs=dict(kn, decoy_scale=None))
-    for key, val in (("cov", None), ("user", None), ("mans", []), ("form", "cartesian"), ("type", "sv")):
+    for key, val in (("cov_history", None), ("cov", None), ("user", None), ("mans", []), ("form", "cartesian"), ("type", "sv")):
         if spec.get(key) and spec.get(key) != val:
             yield dict(plan, knobs=dict(kn, spec=dict(spec, **{key: val})))
     if spec["kind"] == "opm" and len(spec.get("mans", [])) > 1:
